@@ -5,7 +5,7 @@
    callback that asks to stop at its k-th call; 0 = never). Result and the list of
    callback calls (file index, files_done, error). *)
 From Coq Require Import Lia.
-From Torf Require Import Base Extracted Geometry Stream GeometryProofs IterSpec IterProofs IterDamage Filesize FilesizeProofs FilesizeAgree.
+From Torf Require Import Base Extracted Geometry Stream GeometryProofs IterSpec IterProofs IterDamage Filesize FilesizeProofs FilesizeAgree Pipeline PipelineProofs FlowProofs VerifyTrueProofs VerifyFilesizeAgree.
 Open Scope Z_scope.
 
 (* no callback: True iff every listed file exists with exactly the recorded size, otherwise the
@@ -71,6 +71,23 @@ Theorem C20_never_disagrees_with_full_read : forall d L fs h items,
   fst (verify_filesize (Some 0) false (map fsize fs) (map (fstate_of d) fs)) = FRet true.
 Proof. exact filesize_agrees_with_full_read. Qed.
 Print Assumptions C20_never_disagrees_with_full_read.
+
+(* UNBOUNDED, end to end: "whenever full content verification succeeds on a path, the size check succeeds on it too".
+   The reader's items ([iter_pieces], model/Stream.v) are the events of the threaded pipeline (model/Pipeline.v:
+   [rev_of_item] turns an item with data into a piece with its hash, an item with errors into an error item); if a
+   verification run over them returns True -- under ANY schedule, with any number of hashers -- then no item
+   carried an error, hence every listed file has its recorded size, hence the size check (model/Filesize.v)
+   returns True, without a callback and with a passive one.  [H] is the abstract piece hash, [code] the exception a
+   read / size error stands for. *)
+Theorem C20_verify_true_implies_filesize_true : forall (H : bytes -> Z) (code : xitem -> Z) d L fs h items c s expd,
+  0 < L -> allpos fs -> NoDup fs ->
+  iter_pieces d h fs L = Ok items ->
+  cf_items c = map (rev_of_item H code) items -> cf_verify c = Some expd -> Pipeline.zlen expd = Pipeline.zlen items ->
+  reach c s -> s_result s = Some ResTrue ->
+  fst (verify_filesize None false (map fsize fs) (map (fstate_of d) fs)) = FRet true /\
+  fst (verify_filesize (Some 0) false (map fsize fs) (map (fstate_of d) fs)) = FRet true.
+Proof. exact verify_true_implies_filesize_true. Qed.
+Print Assumptions C20_verify_true_implies_filesize_true.
 
 (* non-vacuity: three files (3, 1 and 6 bytes), piece length 4: the full read yields 3 pieces without errors *)
 Example C20_agreement_example :
